@@ -20,6 +20,9 @@ import TE.Driver.Rank
 import TE.Driver.Text
 import TE.Driver.Window
 import TE.Driver.Sync
+import TE.Driver.Multi
+import TE.Driver.Meta
+import TE.Driver.Shape
 open TE TE.Driver
 
 def allFams : List (String × String × (Args → Except String Fam)) :=
@@ -29,7 +32,7 @@ def allPacks : List (String × (Args → Except String Pack)) :=
   aggPacks ++ curvePacks ++ binnedPacks ++ rankPacks ++ textPacks ++ windowPacks
 
 def allFns : List (String × (Args → Except Err String)) :=
-  aggFns ++ curveFns ++ binnedFns ++ rankFns ++ textFns ++ windowFns ++ syncFns
+  aggFns ++ curveFns ++ binnedFns ++ rankFns ++ textFns ++ windowFns ++ syncFns ++ multiFns ++ metaFns ++ shapeFns
 
 def findFn (name : String) : Option (Args → Except String Fam) :=
   (allFams.find? (·.1 = name)).map (·.2.2)
